@@ -664,21 +664,25 @@ Section QuiltSim.
   Definition sersim (fs1 fs2 : fsys) (base1 base2 : list status) (x y : astate * nat * list rej_file) : Prop :=
     snd (fst x) = snd (fst y) /\ snd x = snd y /\ extsim fs1 fs2 base1 base2 (fst (fst x)) (fst (fst y)).
 
+  (* the file patches of the series carry only names of the class *)
+  Definition series_in (db : patches_db) (series : list series_patch) : Prop :=
+    forall sp data p, In sp series -> db_get (sp_name sp) db = Some data ->
+                      parse_patch data (sp_strip sp) false = Ok (Parsed p) -> Forall fpK (pp_fps p).
+
   Theorem apply_series_sim cfg db fs1 fs2 base1 base2 lo :
-    (forall fp, fpK fp) ->
     (forall s, In s base1 -> (st_index s < lo)%nat) -> (forall s, In s base2 -> (st_index s < lo)%nat) ->
-    forall series st1 st2 index, (lo <= index)%nat -> extsim fs1 fs2 base1 base2 st1 st2 ->
+    forall series st1 st2 index, series_in db series -> (lo <= index)%nat -> extsim fs1 fs2 base1 base2 st1 st2 ->
     fst (apply_series cfg db st1 index series fs1) = fs1 /\ fst (apply_series cfg db st2 index series fs2) = fs2 /\
     ressim (sersim fs1 fs2 base1 base2) (snd (apply_series cfg db st1 index series fs1))
                                        (snd (apply_series cfg db st2 index series fs2)).
   Proof.
-    intros HallK Hb1 Hb2. induction series as [|sp rest IH]; intros st1 st2 index Hlo Hext; cbn [apply_series].
+    intros Hb1 Hb2. induction series as [|sp rest IH]; intros st1 st2 index HallK Hlo Hext; cbn [apply_series].
     - cbn. repeat (split; [reflexivity|]). exact Hext.
-    - destruct (db_get (sp_name sp) db) as [data|]; [|cbn; auto].
-      destruct (parse_patch data (sp_strip sp) false) as [[p|pe]| |]; try (cbn; auto; fail).
+    - destruct (db_get (sp_name sp) db) as [data|] eqn:Edb; [|cbn; auto].
+      destruct (parse_patch data (sp_strip sp) false) as [[p|pe]| |] eqn:Epp; try (cbn; auto; fail).
       unfold mbind, mget, mlift. cbn [fst snd].
       pose proof (apply_file_patches_sim fs1 fs2 base1 base2 index sp (c_fuzz cfg) (pp_fps p) st1 st2 false
-                    (proj2 (Forall_forall _ _) (fun fp _ => HallK fp)) Hext) as Hfp.
+                    (HallK sp data p (or_introl eq_refl) Edb Epp) Hext) as Hfp.
       destruct (apply_file_patches fs1 st1 index sp (c_fuzz cfg) (pp_fps p) false) as [[fl1 sta1]| |];
         destruct (apply_file_patches fs2 st2 index sp (c_fuzz cfg) (pp_fps p) false) as [[fl2 sta2]| |];
         cbn [ressim] in Hfp; try contradiction; cbn [fst snd ressim]; auto.
@@ -697,7 +701,7 @@ Section QuiltSim.
         destruct (rollback_and_render_rej (S (length (n2 ++ base2))) {| a_applied := n2 ++ base2; a_files := ova2 |} index [])
           as [[stb2 rj2]| |]; cbn [ressim] in Hr; try contradiction; cbn [mret fst snd ressim]; auto.
         destruct Hr as [Hrj Hextb]. cbn [fst snd] in Hrj, Hextb. subst rj2. repeat (split; [reflexivity|]). exact Hextb.
-      + exact (IH sta1 sta2 (S index) ltac:(lia) Hexta).
+      + exact (IH sta1 sta2 (S index) (fun sp0 d0 p0 Hin => HallK sp0 d0 p0 (or_intror Hin)) ltac:(lia) Hexta).
   Qed.
 
   (* ---------- an invocation that starts from the saved tree = the same patches continued in memory ---------- *)
@@ -717,16 +721,16 @@ Section QuiltSim.
   Qed.
 
   Theorem continue_equals_fresh cfg db fs ov applied fs2 lo :
-    (forall fp, fpK fp) -> wsim fs ov fs2 [] -> (forall s, In s applied -> (st_index s < lo)%nat) ->
-    forall series index, (lo <= index)%nat ->
+    wsim fs ov fs2 [] -> (forall s, In s applied -> (st_index s < lo)%nat) ->
+    forall series index, series_in db series -> (lo <= index)%nat ->
     fst (apply_series cfg db {| a_applied := applied; a_files := ov |} index series fs) = fs /\
     fst (apply_series cfg db {| a_applied := []; a_files := [] |} index series fs2) = fs2 /\
     ressim (sersim fs fs2 applied [])
            (snd (apply_series cfg db {| a_applied := applied; a_files := ov |} index series fs))
            (snd (apply_series cfg db {| a_applied := []; a_files := [] |} index series fs2)).
   Proof.
-    intros HallK Hw Hb series index Hlo.
-    apply (apply_series_sim cfg db fs fs2 applied [] lo HallK Hb (fun s H => match H with end) series _ _ index Hlo).
+    intros Hw Hb series index HallK Hlo.
+    apply (apply_series_sim cfg db fs fs2 applied [] lo Hb (fun s H => match H with end) series _ _ index HallK Hlo).
     split; [exact Hw|]. exists [], []. repeat split; constructor.
   Qed.
 
